@@ -4,6 +4,7 @@ use vcore::runner::{unhex, Mode, Report, Tier};
 
 mod c01;
 mod c02;
+mod c05;
 mod c07;
 mod c08;
 mod c09;
@@ -36,6 +37,9 @@ fn main() {
         };
     }
     vcore::jq::install_panic_hook();
+    if id == "C05" && args.iter().any(|a| a == "--child") {
+        c05::child(&args)
+    }
     let report = Report::new(&id, tier, mode);
     if id == "REFTEST" {
         reftest::run()
@@ -56,6 +60,7 @@ fn main() {
     match id.as_str() {
         "C01" => c01::run(report),
         "C02" => c02::run(report),
+        "C05" => c05::run(report),
         "C07" => c07::run(report),
         "C08" => c08::run(report),
         "C09" => c09::run(report),
